@@ -417,6 +417,50 @@ def engine_sim(prop, tier, seed, work):
     return res
 
 
+# ------------------------------------------------------------------------------ Apalache supplement (slot list)
+SLOTLIST_RUNS = [
+    ("A: the inductive invariant holds initially", ["--length=0", "--init=Init", "--inv=IndInv"], "ok"),
+    ("B: the invariant is inductive under insert / remove (16-bit versions, unbounded history)", ["--length=1", "--init=IndInit", "--inv=IndInv"], "ok"),
+    ("C: the invariant implies: a live token is accepted, a removed one only after a positive multiple of 65536 re-uses of its slot",
+     ["--length=0", "--init=IndInit", "--inv=Safe"], "ok"),
+    ("D (non-vacuity): a list that re-uses a slot without incrementing the version breaks the invariant",
+     ["--length=1", "--init=IndInit", "--inv=IndInv", "--next=NextNoBump"], "violated"),
+]
+
+
+def engine_slotlist(prop, tier, seed, work):
+    """SUPPLEMENT (TLC on LoopCore stays the checker of record): the slot / generation rule of list.rs at its real
+    width, for histories of any length, by Apalache with an inductive invariant (spec/SlotListApalache.tla)"""
+    res = Result()
+    if not shutil.which("apalache-mc"):
+        res.notes.append("Apalache supplement (SlotListApalache): apalache-mc not available, skipped")
+        return res
+    for desc, args, want in SLOTLIST_RUNS:
+        out_dir = os.path.join(work, "apalache_out")
+        try:
+            p = sh(["apalache-mc", "check", "--out-dir=" + out_dir] + args + ["SlotListApalache.tla"], cwd=SPEC, timeout=240, check=False)
+            out = p.stdout
+        except ToolError as e:
+            out = str(e)
+        finally:
+            shutil.rmtree(out_dir, ignore_errors=True)
+        ok = "The outcome is: NoError" in out and "EXITCODE: OK" in out
+        bad = "The outcome is: Error" in out
+        res.cmds.append("apalache-mc check %s SlotListApalache.tla" % " ".join(args))
+        if want == "ok" and ok:
+            res.notes.append("Apalache supplement %s: holds (SMT, unbounded integers)" % desc)
+        elif want == "violated" and bad:
+            res.notes.append("Apalache supplement %s: violated, as it must be" % desc)
+        elif want == "ok" and bad:
+            cex = "%s/replays/%s_apalache_slotlist.txt" % (ROOT, prop)
+            os.makedirs(ROOT + "/replays", exist_ok=True)
+            open(cex, "w").write(out[-100000:])
+            res.viol.append({"prop": prop, "scn": "model:apalache", "clauses": ["model:apalache:" + args[2]], "replay": cex, "first_line": 0})
+        else:
+            res.notes.append("Apalache supplement %s: inconclusive (TLC results are unaffected)" % desc)
+    return res
+
+
 # ------------------------------------------------------------------------------ concurrent protocol engines
 CONC_KINDS = {"C03": ["ping"], "C04": ["chan"], "C10": ["exec"], "C11": ["signal", "blockon"]}
 
@@ -748,6 +792,7 @@ for _p in CORE_CLASSES:
     ENGINES.setdefault(_p, []).extend([engine_model, engine_sim, engine_core])
 for _p in CONC_KINDS:
     ENGINES.setdefault(_p, []).append(engine_conc)
+ENGINES["C06"].append(engine_slotlist)
 
 
 # engines that live in their own module tools/engine_<name>.py (loaded lazily: they import this module)
